@@ -466,7 +466,10 @@ def helper_pairs(ctx, NEX, NR):
 
 
 def helper_search(ctx, NEX, NR):
-    """model-independent brute-force oracle for the two helpers (boundary sets)"""
+    """Model-independent brute-force oracle for the two helpers.  Property-relevant facts (the
+    result is a layout of the same axis; `common_blockdim` only splits) are failures; the rest of
+    the theorem statements (coarsest refinement; `coarse_blockdim` is an input every other input
+    refines, or the refinement) is a spec-vs-implementation disagreement."""
     from dask_array._core_utils import common_blockdim
     from dask_array._expr import coarse_blockdim
 
@@ -477,21 +480,35 @@ def helper_search(ctx, NEX, NR):
         if len(sums) != 1:
             return
         total = sums.pop()
-        r = common_blockdim(set(lst))
+        case = {"fn": "common_blockdim", "blockdims": [list(c) for c in lst]}
+        try:
+            r = common_blockdim(set(lst))
+        except Exception as e:
+            ctx.fail("common_blockdim:raises", dict(case, error=repr(e)[:200]), "common_blockdim raises on layouts of one axis")
+            return
         union = set().union(*[bset(c) for c in lst])
         ctx.count(("H-common", len(lst), len(r) > max(len(c) for c in lst)))
-        if sum(r) != total or bset(r) != union or any(v < 0 for v in r):
-            ctx.fail("common_blockdim:not-coarsest-refinement", {"fn": "common_blockdim", "blockdims": [list(c) for c in lst], "got": list(r)},
-                     "common_blockdim is not the coarsest common refinement of its inputs")
+        if sum(r) != total or any(v < 0 for v in r) or not all(bset(c) <= bset(r) for c in lst):
+            ctx.fail("common_blockdim:not-a-common-refinement", dict(case, got=list(r)),
+                     "common_blockdim does not return a layout of the axis that only splits every input")
+        elif not bset(r) <= union and len(ctx.disagreements) < 200:
+            ctx.disagree("spec:commonBlockdim_refines", "common_blockdim " + f_ll(lst), "boundaries ⊆ union of inputs' boundaries", "ok " + f_list(r))
         if all(v > 0 for c in lst for v in c):
-            q = coarse_blockdim(set(lst))
+            case = dict(case, fn="coarse_blockdim")
+            try:
+                q = coarse_blockdim(set(lst))
+            except Exception as e:
+                ctx.fail("coarse_blockdim:raises", dict(case, error=repr(e)[:200]), "coarse_blockdim raises on layouts of one axis")
+                return
             nt = [c for c in lst if len(c) > 1]
             ok = tuple(q) == tuple(r) or (tuple(q) in {tuple(c) for c in lst} and all(bset(q) <= bset(c) for c in nt)
                                            and all(len(q) <= len(c) for c in nt))
             ctx.count(("H-coarse", len(lst), tuple(q) == tuple(r)))
-            if not ok or sum(q) != total:
-                ctx.fail("coarse_blockdim:spec", {"fn": "coarse_blockdim", "blockdims": [list(c) for c in lst], "got": list(q), "common": list(r)},
-                         "coarse_blockdim is neither an input refined by all others nor common_blockdim")
+            if sum(q) != total or any(v <= 0 for v in q):
+                ctx.fail("coarse_blockdim:not-a-layout", dict(case, got=list(q)), "coarse_blockdim does not return a layout of the axis")
+            elif not ok and len(ctx.disagreements) < 200:
+                ctx.disagree("spec:coarseBlockdim_spec", "coarse_blockdim " + f_ll(lst),
+                             "an input refined by every other input, or common_blockdim", "ok " + f_list(q))
 
     for s in helper_sets(ctx, NEX):
         check([c for c in s if c != (1,)] or [(1,)])
@@ -527,7 +544,7 @@ def run(ctx, replay=None):
     ]
     NEX = ctx.scale(5, 6)
     NR = ctx.scale(1500, 20000)
-    NPROG = ctx.scale(110, 1200)
+    NPROG = ctx.scale(100, 1500)
 
     if replay and isinstance(replay, dict) and isinstance(replay.get("case"), dict) and "operands" in replay["case"]:
         case = {k: v for k, v in replay["case"].items() if k != "detail"}
@@ -617,7 +634,7 @@ def targeted(ctx):
     tried = 0
     for d in ctx.disagreements[:60]:
         toks = d["request"].split()
-        if toks[0] in ("un.common", "un.coarse"):
+        if toks[0] in ("un.common", "un.coarse", "common_blockdim", "coarse_blockdim") and len(toks) > 1:
             try:
                 lst = [tuple(int(t) for t in part.split(",")) if part != "_" else () for part in toks[1].split(";")] if toks[1] != "-" else []
             except ValueError:
